@@ -13,7 +13,8 @@ EXPLANATION = (
     "blocking channel operation; (e) F14 — daemon-thread code performs no blocking Sender::send on a bounded "
     "multi-event client channel.  Decides these conditions, not interleavings as such."
     " (g) Commands still queued when Exit is executed are consumed (answered or dropped) so that their reply channels close."
-    " (h) The loop around receiver.try_recv() in run is left only on try_recv's empty-queue edge or on the way out of run: no batch cap can strand commands whose wake-up datagrams are already consumed. (i) ServiceInfo::set_status never writes a status other than Probing/Announced unless the interface was removed from my_intfs first (goodbyes at shutdown go where the status is Announced).")
+    " (h) The loop around receiver.try_recv() in run is left only on try_recv's empty-queue edge or on the way out of run: no batch cap can strand commands whose wake-up datagrams are already consumed. (i) ServiceInfo::set_status never writes a status other than Probing/Announced unless the interface was removed from my_intfs first (goodbyes at shutdown go where the status is Announced)."
+    " The goodbye at shutdown is built over both sockets (C09b, shared).")
 UNDECIDED = ["interleavings as such (exhaustive small-N exploration is a different technique family)",
              "that a blocked client eventually drains (environment)"]
 
